@@ -4,6 +4,7 @@ mod docq;
 mod engine;
 mod gen;
 mod lspc;
+mod lspcheck;
 mod minimize;
 mod oal;
 mod props;
